@@ -4,6 +4,7 @@ import RactorModel.Extracted
 import RactorModel.Lemmas.FactoryCountW
 import RactorModel.Lemmas.FactoryShape
 import RactorModel.Lemmas.FactoryDrain
+import RactorModel.Lemmas.FactoryHooks
 
 /-!
 # C15 — Factory capacity controls: limits, rate, pool size, draining
@@ -288,7 +289,8 @@ theorem drained_factory_stops (w : W) (hb : w.blocked = false) (hd : w.drain = .
     unfold W.tryFinishStop
     simp only [hst, hex, haw, Bool.not_false, Bool.and_self, if_true, true_and]
     obtain ⟨rest, hr⟩ := foldl_dropMsg_log w'.inbox (w'.env.emit (.hook .stopped))
-    exact ⟨rest, by rw [hr]; simp [Env.emit]⟩
+    obtain ⟨rest2, hr2⟩ := killAll_log (w'.inbox.foldl Env.dropMsg (w'.env.emit (.hook .stopped)))
+    exact ⟨rest ++ rest2, by rw [hr2, hr]; simp [Env.emit]⟩
 
 open Factory in
 /-- … and does not stop earlier: with a worker still busy or a job still queued the drain state
@@ -305,6 +307,21 @@ theorem draining_waits_for_work (w : W) (hb : w.blocked = false) (hd : w.drain =
       | nil => exact absurd hq h
       | cons _ _ => rfl
     simp [hb, hd, this, hs]
+
+/-! ## Lifecycle hooks run in the order started, draining, stopped -/
+
+open Factory in
+/-- (hook order) For every configuration and EVERY sequence of operations the lifecycle hooks
+recorded in the history are: `started` first and exactly once; then `draining` once per handled
+`DrainRequests` (never after the factory began to stop); then `stopped` — exactly once, last, and
+exactly when the actor has exited (which implies it had entered `post_stop`). -/
+theorem hooks_in_order (c : CaseCfg) (steps : List Step) :
+    (∃ k, hooksOf ((init c).runSteps steps).env.log =
+        Hook.started :: (List.replicate k Hook.draining ++
+          (if ((init c).runSteps steps).exited then [Hook.stopped] else []))) ∧
+    (((init c).runSteps steps).exited = true → ((init c).runSteps steps).stopped = true) := by
+  have h := hookOk_runSteps (init c) steps (hookOk_init c)
+  exact ⟨h.order, h.exitedStopped⟩
 
 /-! ## Source-derived constants (E-SRC) -/
 
@@ -379,5 +396,6 @@ end C15
 #print axioms C15.drain_request_handled
 #print axioms C15.drained_factory_stops
 #print axioms C15.draining_waits_for_work
+#print axioms C15.hooks_in_order
 #print axioms C15.extracted_pool_maximum
 #print axioms C15.extracted_calculate_frequency
